@@ -82,9 +82,16 @@ def main(chk):
     copies = ['factored', 'local', 'public'] + (['mixture'] if mix_mod else [])
     for it in range(n):
         nmeas = rng.randint(1, 3)
-        sizes = [rng.choice([1, 2, 3, 4, 5, 8] if chk.tier == 'quick' else [1, 2, 3, 5, 8, 13, 21, 34, 64]) for _ in range(nmeas)]
-        attrs = ['a', 'b', 'c'][:nmeas]
-        dom = Domain(attrs, sizes)
+        usizes = [rng.choice([1, 2, 3, 4, 5, 8] if chk.tier == 'quick' else [1, 2, 3, 5, 8, 13, 21, 34, 64]) for _ in range(nmeas)]
+        uattrs = ['a', 'b', 'c'][:nmeas]
+        dom = Domain(uattrs, usizes)
+        if nmeas >= 2 and rng.random() < 0.4:
+            # the same marginal measured more than once (each measurement is its own estimate of the total)
+            attrs = [rng.choice(uattrs) for _ in range(nmeas)]
+            chk.count('repeated-projection')
+        else:
+            attrs = list(uattrs)
+        sizes = [usizes[uattrs.index(a)] for a in attrs]
         N = rng.choice([1, 2, 7, 50, 1000])
         noise_free = rng.random() < 0.6
         ms, meta = [], []
@@ -141,7 +148,29 @@ def main(chk):
             elif copy == 'public':
                 pub_mod.lsmr = lsmr_rec
                 known = None
-                total = pub_mod.estimate_total(ms)
+                if rng.random() < 0.5:
+                    total = pub_mod.estimate_total(ms)
+                else:
+                    # through PublicInference.estimate on one object, after an earlier call with other measurements / another total:
+                    # the total handed to the optimiser must be this call's estimate (or exactly the supplied total)
+                    import pandas as pd
+                    from mbi import Dataset
+                    used = []
+                    orig_emd = pub_mod.entropic_mirror_descent
+                    pub_mod.entropic_mirror_descent = lambda lg, x0, total, iters=250: (used.append(total), x0)[1]
+                    try:
+                        pub = Dataset(pd.DataFrame({a: [rng.randrange(sz) for _ in range(6)] for a, sz in zip(uattrs, usizes)}), dom)
+                        eng = pub_mod.PublicInference(pub)
+                        known = rng.choice([None, None, None, 41.0])
+                        if rng.random() < 0.7:
+                            eng.estimate([(Q, y * 3.0 + 1.0, sg, pr) for Q, y, sg, pr in ms], total=rng.choice([None, 5.0]))
+                            info['history'] = 'earlier PublicInference.estimate call'
+                            del recorded[:]
+                        eng.estimate(ms, total=known)
+                        total = used[-1]
+                        info['known_total'] = known; info['via'] = 'PublicInference.estimate'
+                    finally:
+                        pub_mod.entropic_mirror_descent = orig_emd
             else:
                 mix_mod.lsmr = lsmr_rec
                 known = None
